@@ -628,6 +628,15 @@ def g_catalogue(ctx, rng, i):
     specs = catalog.enumerate_calls(pool, rng, per_method_pairs=4, func_samples=30, include_scalars=False)
     # only calls that involve a collection
     specs = [s for s in specs if any(_is_tensor(o) and coll_axes(o) > 0 for o in s.operands())]
+    if (i // 2) % 2 == 1:
+        # history: every collection of the pool has been the operand of expand_dims / copy / indexing (results dropped) before the catalogue uses it
+        for _, obj in pool:
+            if _is_tensor(obj) and coll_axes(obj) > 0:
+                for pre in (lambda: obj.expand_dims(0), lambda: obj.expand_dims(coll_axes(obj)), lambda: obj.copy().expand_dims(0), lambda: obj[None]):
+                    try:
+                        pre()
+                    except Exception:
+                        pass
     order = rng.permutation(len(specs))
     budget = 2500
     for k in order[:budget]:
